@@ -70,6 +70,7 @@ class C12(Scenario):
             positions = ["init", "pipe"] + [f"add{i}" for i in range(ndirs)] + ["missing-root", "none", "thread:InotifyBuffer", "thread:Em"]
             pos = positions[k % len(positions)]
             case["level"] = LEVELS[((idx // 3) // 16) % len(LEVELS)]
+            case["alias"] = rng.random() < 0.5
             k = idx // 3
             case["position"] = pos
             if pos == "init":
@@ -262,11 +263,19 @@ class C12(Scenario):
             will_fail = False  # EACCES is swallowed by design (unreadable directories are skipped)
         raised = None
         obj = None
+        alias = bool(case.get("alias")) and pos == "none" and level in ("inotify", "buffer")
+        if alias:
+            # a directory reachable under two names (a followed link into the tree): the kernel hands out one descriptor for both
+            ds = sorted(d for d in run.model.dirs_in("root") if d != "root")
+            if ds:
+                os.symlink(run.real(ds[0]), run.real("root/zz-alias"))
+            else:
+                alias = False
         try:
             if level == "inotify":
-                obj = M["ic"].Inotify(rootb, recursive=True)
+                obj = M["ic"].Inotify(rootb, recursive=True, follow_symlink=alias)
             elif level == "buffer":
-                obj = M["ib"].InotifyBuffer(rootb, recursive=True)
+                obj = M["ib"].InotifyBuffer(rootb, recursive=True, follow_symlink=alias)
             elif level == "emitter":
                 obj = run_emitter_class(run, M)(M["api"].EventQueue(), M["api"].ObservedWatch(root, recursive=True))
                 obj.start()
